@@ -10,6 +10,9 @@ UNITS = [
          no_dfcc=True, remove_bodies=[f for f in _hs if f != "bidib_set_train_speed_internal"], extra_flags=["--nondet-static"], covers=2, min_obligations=8,
          stubbed_contracts=["bidib_state_get_train_ref", "bidib_state_get_board_ref", "bidib_state_get_train_state_ref", "bidib_send_cs_drive_intern", "bidib_lib_speed_to_dcc_format"],
          note="every int speed (incl. out of range), NULL ids, unknown train, unknown/disconnected/non-track-output board; loop-free => complete"),
+    Unit(name="C09.set_train_peripheral_range", src="units/C09/train_speed.c", defines=["VP_H_PERIPHERAL_RANGE"], functions=["bidib_set_train_peripheral"], props=["C09"],
+         no_dfcc=True, remove_bodies=[f for f in _hs if f != "bidib_set_train_peripheral"], extra_flags=["--nondet-static", "--unwind", "34"], timeout=900, covers=1, min_obligations=6,
+         stubbed_contracts=["bidib_state_get_train_ref", "bidib_state_get_board_ref", "bidib_send_cs_drive_intern"], note="every state value 2..255: rejected before any lookup"),
     Unit(name="C09.set_train_peripheral", src="units/C09/train_speed.c", defines=["VP_H_PERIPHERAL"], functions=["bidib_set_train_peripheral", "bidib_get_current_train_peripheral_bits"], props=["C09"],
          no_dfcc=True, kind="bounded", bound="train with exactly 3 configured functions on arbitrary distinct bits (0..4, 8..31); loops unwound completely for that size",
          remove_bodies=[f for f in _hs if f not in ("bidib_set_train_peripheral", "bidib_get_current_train_peripheral_bits")],
